@@ -102,12 +102,12 @@ CHECKS.update({
             "DESIGN.md 3/C13"),
     "C16": ("casm", "exploration",
             "runtime monitoring: reference one-step semantics evaluated next to the real encoder + VM step",
-            "All 116 instruction shapes are instantiated with boundary offsets and immediates, assembled and encoded by the "
+            "All 180 instruction shapes (including the blake2s and {QM31} opcode extensions) are instantiated with boundary offsets and immediates, assembled and encoded by the "
             "toolchain, decoded and executed for one step by cairo-vm from seeded machine states; registers and all touched cells "
             "are compared with a reference semantics written from the CASM instruction type; encoded length is compared with "
             "op_size and with the VM decoder's size.",
             "Trusted: cairo-vm's step as the executor; states where the VM must deduce a binop operand, and results outside the "
-            "address range, are not modelled (counted). Blake2s/QM31 are encode/decode only.",
+            "address range, are not modelled (counted). The blake2s reference is written from RFC 7693, the QM31 reference from the field definition (CM31[u]/(u^2-2-i)); {QM31} forms without an operation are encode/decode only.",
             "DESIGN.md 3/C16"),
     "C18": ("serde", "exploration",
             "runtime monitoring: round-trip equalities observed on real serializer/compiler executions",
